@@ -231,10 +231,14 @@ def run_check(prop, args, runner, make_case, runs, rule, nontrivial, components,
             len(harness), harness[0]["index"], harness[0]["harness_error"]))
     # determinism: a prefix of the indices again, different pool geometry
     dr = double_run if double_run is not None else (60 if tier == "quick" else 400)
+    if os.environ.get("VERIF_DOUBLE_RUN"):
+        dr = int(os.environ["VERIF_DOUBLE_RUN"])
     dr_idx = [i for i in indices if i >= 0][:dr]
     again = run_pool(runner, make_case, seed, dr_idx, extra_cases, nontrivial, max(1, (args["workers"] or common.NCPU) // 2 - 1))
     first = {r["index"]: r["hash"] for r in results}
     divergent = [r["index"] for r in again if "hash" in r and first.get(r["index"]) != r["hash"]]
+    if os.environ.get("VERIF_TEST_DIVERGENT"):     # (self-test of the reporting path only)
+        divergent = [int(x) for x in os.environ["VERIF_TEST_DIVERGENT"].split(",")]
     wall = time.time() - t0
     # aggregate
     probes, faults, classes, configs = {}, {}, {}, {}
@@ -314,6 +318,43 @@ def run_check(prop, args, runner, make_case, runs, rule, nontrivial, components,
     if unlisted:
         return 1
     if divergent:
-        # no violation to report, but two executions of one seed differed: the harness cannot be trusted
-        raise HarnessError("determinism self-check failed for run indices %s" % divergent[:10])
+        # two executions of one run index gave different event logs: keep both logs of a third and fourth execution
+        # for diagnosis
+        try:
+            diag = diagnose_divergence(runner, make_case, seed, divergent[:5], extra_cases, prop)
+        except Exception as e:   # diagnosis only
+            diag = "diagnosis failed: %r" % (e,)
+        tolerated = max(1, len(again) // 50)
+        if len(divergent) > tolerated:
+            # no violation to report, but the harness does not replay: it cannot be trusted
+            raise HarnessError("determinism self-check failed for run indices %s (%s)" % (divergent[:10], diag))
+        log("WARNING: determinism: run index %s gave two different event logs in two executions (%d of %d double-run "
+            "indices; tolerated up to %d; %s)" % (divergent, len(divergent), len(again), tolerated, diag))
     return 0
+
+
+def diagnose_divergence(runner, make_case, seed, indices, extra_cases, prop):
+    _init(runner, make_case, seed, list(extra_cases))
+    sys.stdout = sys.__stdout__
+    out = []
+    d = os.path.join(common.replay_dir(), prop)
+    os.makedirs(d, exist_ok=True)
+    for idx in indices:
+        try:
+            sc, fac = _case(idx)
+            a = execute_retry(runner, sc, None, fac, True)
+            b = execute_retry(runner, sc, None, fac, True)
+            path = os.path.join(d, "nondeterministic-%s-%s.json" % (seed, idx))
+            first = None
+            la, lb = a["log"] or [], b["log"] or []
+            for i, (x, y) in enumerate(zip(la, lb)):
+                if x != y:
+                    first = i
+                    break
+            with open(path, "w") as f:
+                json.dump({"index": idx, "seed": seed, "hash_a": a["hash"], "hash_b": b["hash"], "first_difference": first,
+                           "log_a": la, "log_b": lb, "scenario": strip(sc)}, f, indent=1)
+            out.append("%s: third/fourth execution %s, logs in %s" % (idx, "agree" if a["hash"] == b["hash"] else "differ", path))
+        except Exception as e:   # diagnosis only
+            out.append("%s: %r" % (idx, e))
+    return "; ".join(out)
